@@ -229,6 +229,8 @@ Definition rnp_spec (s : state) (n : nid) : res (state * option err) :=
   w <-! addAll (fun c => height (nd s c)) (pushlist s n) (heap s);
   Ok (afterLocal s n <| heap := w |> <| handlers := newHandlers s n |>, None).
 
+Definition isVarKind (k : kind) : bool := match k with KVar _ => true | _ => false end.
+
 (** * 3. The invariant of a bind-free parallel pass (holds between blocks) *)
 Record pass_ok (s : state) : Prop := {
   po_graph : graph_ok s;
@@ -238,12 +240,23 @@ Record pass_ok (s : state) : Prop := {
   po_nolhs : forall n, is_lhs (nkind (nd s n)) = false;         (* no bind in the graph *)
   po_hrange : forall n, -1 <= height (nd s n);
   po_reads : forall n, 0 <= height (nd s n) -> reads_below s n (height (nd s n));
-  po_setDuring : setDuring s = [];
+  po_setDuring : forall v, v ∈ setDuring s -> isVarKind (nkind (nd s v)) = true;   (* deferred sets are on vars *)
   po_setRemoved : setRemoved s = []
 }.
 
 (** the plan has no action at all for any node function *)
 Definition quiet_all (p : plan) : Prop := forall n w, actions_of p n w = [].
+
+(** the plan of a pass whose node functions only set vars, no var being set by two different nodes
+    of the same height (such nodes may run concurrently) *)
+Definition tgt (a : action) : option nid :=
+  match a with ASet v _ | AUpdate v _ => Some v | AFail _ => None end.
+Record plan_par_ok (p : plan) (s : state) : Prop := {
+  pp_nofault : forall n w a, a ∈ actions_of p n w -> match a with AFail _ => False | _ => True end;
+  pp_vars : forall n w a v, a ∈ actions_of p n w -> tgt a = Some v -> isVarKind (nkind (nd s v)) = true;
+  pp_disjoint : forall n m w w' a a' v, n <> m -> height (nd s n) = height (nd s m) ->
+                  a ∈ actions_of p n w -> a' ∈ actions_of p m w' -> tgt a = Some v -> tgt a' = Some v -> False
+}.
 
 (** the nodes reported as updated: the update-handler events of a log *)
 Definition isUpdEv (e : event) : bool :=
@@ -289,7 +302,7 @@ Definition pass_okb (s : state) : bool :=
              (Heap.ids (heap s))
   && forallb (fun n => negb (is_lhs (nkind (nd s n))) && (-1 <=? height (nd s n))
                        && ((height (nd s n) <? 0) || reads_belowb s n (height (nd s n)))) (nodeIds s)
-  && bool_decide (setDuring s = []) && bool_decide (setRemoved s = []).
+  && forallb (fun v => isVarKind (nkind (nd s v))) (setDuring s) && bool_decide (setRemoved s = []).
 
 (** * Example states (non-vacuity), reached by [Engine.run] *)
 (** two vars (0, 1), a map over each (2, 3), a second map over 3 (4), a map2 over both maps (5),
@@ -346,8 +359,6 @@ Definition setsT (acts : list action) (s : state) : state := foldl setAct s acts
 (** all the sets of a block, in processing order *)
 Definition setsAll (p : plan) (order : list nid) (s : state) : state :=
   foldl (fun s n => setsT (nodeActs p s n) s) s order.
-
-Definition isVarKind (k : kind) : bool := match k with KVar _ => true | _ => false end.
 
 (** the node functions of the block are race free among themselves: no faults, they only set
     vars, and no var is set by two different nodes of the block *)
@@ -520,3 +531,11 @@ Definition blk_state (r : res (state * option err * list nid)) : state :=
 Definition ex_pre : state := get_state ex_state.
 Definition ex_mid_s : state := match ex_mid with Ok (s, _) => s | _ => init 0 end.
 Definition w_pre : state := get_state w_state.
+
+Definition plan_par_okb (p : plan) (s : state) : bool :=
+  forallb (fun '(n, w, a) => negb (is_fault a)
+                             && match target a with Some v => isVarKind (nkind (nd s v)) | None => true end) p
+  && forallb (fun '(n, w, a) =>
+       forallb (fun '(m, w', a') =>
+          (n =? m)%nat || negb (height (nd s n) =? height (nd s m))
+          || match target a, target a' with Some v, Some v' => negb (v =? v')%nat | _, _ => true end) p) p.
